@@ -384,6 +384,13 @@ func init() {
 				},
 				Visit: func(res *sched.Result) bool { return !col.TooMany() },
 			}
+			if rname, choices, ok := e3Replay(c); ok {
+				if rname != out.Name {
+					out.Exhaustive = false
+					return out // the replay file names another scenario
+				}
+				ex.Only = choices
+			}
 			st := ex.Explore()
 			out.Executions, out.Transitions, out.MaxPoints, out.Exhaustive = st.Executions, st.Transitions, st.MaxPoints, st.Exhaustive
 			out.Extra["racy_selects"], out.Extra["racy_diverged"], out.Extra["owned_select_choices"] = st.RacySelects, st.RacyDiverged, st.Picks
